@@ -28,6 +28,26 @@ static int check64(uint64_t b, StringBuilder* sb) {
     memcpy(&rb, &g, 8);
     return rb == b;
 }
+/* integers: the text must be the canonical decimal numeral of the value (parsed back with strtoull / strtoll, no leading zeros, no junk) */
+static uint64_t rng(uint64_t* s);
+static int canon(const char* t) { size_t i = 0; if (t[0] == '-') i = 1; if (t[i] == 0) return 0; if (t[i] == '0' && t[i + 1] != 0) return 0; if (t[0] == '-' && t[1] == '0') return 0;
+    for (; t[i]; i++) if (t[i] < '0' || t[i] > '9') return 0; return 1; }
+static int checkint(uint64_t v, StringBuilder* sb) { char* e; int ok = 1;
+    if (!stringBuilderReset(sb) || !stringBuilderAppendU64(sb, v)) return 0; ok &= canon(sb->string) && strtoull(sb->string, &e, 10) == v && *e == 0;
+    if (!stringBuilderReset(sb) || !stringBuilderAppendI64(sb, (int64_t)v)) return 0; ok &= canon(sb->string) && strtoll(sb->string, &e, 10) == (int64_t)v && *e == 0;
+    if (!stringBuilderReset(sb) || !stringBuilderAppendU32(sb, (uint32_t)v)) return 0; ok &= canon(sb->string) && strtoull(sb->string, &e, 10) == (uint32_t)v && *e == 0;
+    if (!stringBuilderReset(sb) || !stringBuilderAppendI32(sb, (int32_t)(uint32_t)v)) return 0; ok &= canon(sb->string) && strtoll(sb->string, &e, 10) == (int32_t)(uint32_t)v && *e == 0;
+    return ok; }
+static unsigned long long ints(int full, uint64_t seed, uint64_t* firstbad) { StringBuilder sb = {0}; unsigned long long bad = 0, n, i; uint64_t p = 1, s = seed | 1; int k, a, b;
+    static const uint64_t parts[] = {0, 1, 2, 9, 10, 11, 99999999ull, 100000000ull, 100000001ull, 999999999ull, 1000000000ull, 1000000001ull, 123456789ull, 900000000ull, 18ull, 4294967295ull};
+    stringBuilderInitialize(&sb);
+#define CHK(x) do { uint64_t x_ = (x); if (!checkint(x_, &sb)) { if (!bad) *firstbad = x_; bad++; } if (!checkint(0 - x_, &sb)) { if (!bad) *firstbad = 0 - x_; bad++; } } while (0)
+    for (k = 0; k < 20; k++) { CHK(p - 1); CHK(p); CHK(p + 1); CHK(5 * p); if (k < 19) p *= 10; }
+    for (a = 0; a < 16; a++) for (b = 0; b < 16; b++) { CHK(parts[a] * 1000000000ull + parts[b]); CHK(parts[a] * 1000000000000000000ull + parts[b]); CHK(parts[a] * 1000000000000000000ull + parts[b] * 1000000000ull + parts[(a + b) & 15]); }
+    CHK(0x7fffffffffffffffull); CHK(0x8000000000000000ull); CHK(0xffffffffffffffffull); CHK(0x7fffffffull); CHK(0x80000000ull); CHK(0xffffffffull);
+    n = full ? 100000000ull : 1000000ull;
+    for (i = 0; i < n; i++) { uint64_t r = rng(&s); CHK(r >> (r & 63)); }
+    return bad; }
 static uint64_t rng(uint64_t* s) { *s ^= *s << 13; *s ^= *s >> 7; *s ^= *s << 17; return *s; }
 
 int main(int argc, char** argv) {
@@ -58,5 +78,8 @@ int main(int argc, char** argv) {
     printf("f32 patterns checked=%llu mismatches=%llu%s\nf64 patterns checked=%llu mismatches=%llu\n", n32, bad32, full ? " (exhaustive)" : "", n64, bad64);
     if (bad32) printf("first f32 mismatch: 0x%08x\n", firstbad32);
     if (bad64) printf("first f64 mismatch: 0x%016llx\n", (unsigned long long)firstbad64);
-    return (bad32 || bad64) ? 1 : 0;
+    { uint64_t fb = 0; unsigned long long badi = ints(full, seed, &fb);
+      printf("integer decimal texts: mismatches=%llu\n", badi);
+      if (badi) printf("first integer mismatch: %llu (0x%016llx)\n", (unsigned long long)fb, (unsigned long long)fb);
+      return (bad32 || bad64 || badi) ? 1 : 0; }
 }
